@@ -42,6 +42,7 @@ type rtReq struct {
 	Method string `json:"method"`
 	BodyN  int    `json:"bodyn"`
 	AtMs   int    `json:"atms"`   // start offset
+	C2     bool   `json:"c2"`     // issued through a second Client of the same process, which has no response timeout
 	Repeat int    `json:"repeat"` // the caller issues this many further requests back to back (tags Tag+1000, Tag+2000, ...)
 }
 
@@ -470,6 +471,17 @@ func runRtScenario(sc rtScenario) (evs []sEvent) {
 		return r.evs
 	}
 	cl := http2.ClientFrom(hc)
+	// a second Client in the same process (the pools are process-wide), configured without a response timeout
+	var hc2 *fasthttp.HostClient
+	for _, q := range sc.Reqs {
+		if q.C2 && hc2 == nil {
+			hc2 = &fasthttp.HostClient{Addr: "rt.test:443", IsTLS: true, TLSConfig: &tls.Config{InsecureSkipVerify: true, ServerName: "rt.test"}, Dial: r.dial}
+			if err := http2.ConfigureClient(hc2, http2.ClientOpts{MaxResponseTime: -1, PingInterval: time.Hour}); err != nil {
+				r.emit(sEvent{"k": "configurefail", "err": err.Error()})
+				return r.evs
+			}
+		}
+	}
 	var done sync.WaitGroup
 	returned := make([]atomic.Bool, len(sc.Reqs))
 	t0 := time.Now()
@@ -502,7 +514,11 @@ func runRtScenario(sc rtScenario) (evs []sEvent) {
 							err = fmt.Errorf("panic: %v", p)
 						}
 					}()
-					retry, err = hc.Transport.RoundTrip(hc, req, res)
+					if q.C2 {
+						retry, err = hc2.Transport.RoundTrip(hc2, req, res)
+					} else {
+						retry, err = hc.Transport.RoundTrip(hc, req, res)
+					}
 				}()
 				e := sEvent{"k": "ret", "tag": q.Tag, "retry": retry, "ok": err == nil, "err": "", "class": rtErrClass(err), "ms": int(time.Since(t) / time.Millisecond),
 					"status": 0, "body": "", "xtag": -1}
@@ -552,6 +568,9 @@ func runRtScenario(sc rtScenario) (evs []sEvent) {
 	r.emit(sEvent{"k": "clientclose"})
 	r.over.Store(true)
 	cl.Close()
+	if hc2 != nil {
+		http2.ClientFrom(hc2).Close()
+	}
 	// every scripted server sees EOF once the client has closed its connections
 	left := -1
 	for i := 0; i < 300; i++ {
